@@ -167,15 +167,42 @@ inline Outcome runSmootherCase(const KV& c, bool extrapolated)
         SmootherTake st(g, H.levels[0]->levelCache(), *H.geometry, *H.coefficients, p.dirbc, threads);
         SmootherGive sg(Hg.levels[0]->grid(), Hg.levels[0]->levelCache(), *Hg.geometry, *Hg.coefficients, p.dirbc, threads);
         omp_set_num_threads(threads);
-        st.smoothing(xt, f, tmp1);
-        sg.smoothing(xg, f, tmp2);
+        if (c.getI("smoother_copy", 0)) {
+            // the sweep runs on copy-constructed smoother objects (the originals are destroyed first)
+            o.cls("sweep_on_copied_smoother");
+            auto pt = std::make_unique<SmootherTake>(st);
+            auto pg = std::make_unique<SmootherGive>(sg);
+            SmootherTake st2(*pt);
+            SmootherGive sg2(*pg);
+            pt.reset();
+            pg.reset();
+            st2.smoothing(xt, f, tmp1);
+            sg2.smoothing(xg, f, tmp2);
+        }
+        else {
+            st.smoothing(xt, f, tmp1);
+            sg.smoothing(xg, f, tmp2);
+        }
     }
     else {
         ExtrapolatedSmootherTake st(g, H.levels[0]->levelCache(), *H.geometry, *H.coefficients, p.dirbc, threads);
         ExtrapolatedSmootherGive sg(Hg.levels[0]->grid(), Hg.levels[0]->levelCache(), *Hg.geometry, *Hg.coefficients, p.dirbc, threads);
         omp_set_num_threads(threads);
-        st.extrapolatedSmoothing(xt, f, tmp1);
-        sg.extrapolatedSmoothing(xg, f, tmp2);
+        if (c.getI("smoother_copy", 0)) {
+            o.cls("sweep_on_copied_smoother");
+            auto pt = std::make_unique<ExtrapolatedSmootherTake>(st);
+            auto pg = std::make_unique<ExtrapolatedSmootherGive>(sg);
+            ExtrapolatedSmootherTake st2(*pt);
+            ExtrapolatedSmootherGive sg2(*pg);
+            pt.reset();
+            pg.reset();
+            st2.extrapolatedSmoothing(xt, f, tmp1);
+            sg2.extrapolatedSmoothing(xg, f, tmp2);
+        }
+        else {
+            st.extrapolatedSmoothing(xt, f, tmp1);
+            sg.extrapolatedSmoothing(xg, f, tmp2);
+        }
     }
     omp_set_num_threads(1);
     LD xscale = 0;
@@ -495,6 +522,7 @@ inline KV genSmootherCase(bool extrapolated)
     c.putU("f_seed", rseed());
     c.putI("carry_bc", rbool());
     c.putI("via_level", rweighted({4, 1}));
+    c.putI("smoother_copy", rweighted({4, 1}));
     c.putI("model", model);
     return c;
 }
